@@ -220,7 +220,7 @@ class VIter(V):
   raises instead of being yielded when fails[i]; `resumable` says whether
   next() may be called again after it raised (true for random-access readers,
   false for generator objects)."""
-  __slots__ = ('src', 'pos', 'fails', 'resumable', 'ret', 'dead', 'tag', 'err')
+  __slots__ = ('src', 'pos', 'fails', 'resumable', 'ret', 'dead', 'tag', 'err', 'on_elem', 'wrap_fn')
 
   def __init__(self, src, pos, fails=None, resumable=True, ret=None, tag='',
                err='ValueError'):
@@ -228,6 +228,8 @@ class VIter(V):
     self.resumable, self.ret, self.tag = resumable, ret, tag
     self.dead = z3.BoolVal(False)
     self.err = err
+    self.on_elem = None      # hook(index term, value): facts about the element just taken
+    self.wrap_fn = None      # builds the Python-level value of element i (default: wrap(src.kind, src[i]))
 
   def __repr__(self):
     return f'VIter<{self.tag}>(pos={self.pos})'
@@ -284,3 +286,26 @@ class VQueue(V):
 
   def __init__(self, q, cap, name='queue'):
     self.q, self.cap, self.name = q, cap, name
+
+
+class VVec(V):
+  """numpy vector of concrete length (np.zeros(k, dtype=int)): elementwise arithmetic."""
+  __slots__ = ('items',)
+
+  def __init__(self, items):
+    self.items = list(items)
+
+
+class VZip(V):
+  """zip(*iterators, strict=...) over symbolic-length iterators."""
+  __slots__ = ('its', 'strict')
+
+  def __init__(self, its, strict):
+    self.its, self.strict = its, strict
+
+
+class VPartial(V):
+  __slots__ = ('fn', 'args', 'kwargs')
+
+  def __init__(self, fn, args, kwargs):
+    self.fn, self.args, self.kwargs = fn, args, kwargs
